@@ -69,6 +69,24 @@ def collect_nodes(u, out):
         collect_nodes(v, out)
 
 
+def const_only_keys(fn):
+  """keys of expression nodes that mention no signal (s.*), temporary or loop variable: constant-only sub-expressions"""
+  assigned = set()
+  for n in ast.walk(fn):
+    if isinstance(n, ast.Assign):
+      for t in n.targets:
+        if isinstance(t, ast.Name): assigned.add(t.id)
+    elif isinstance(n, ast.For) and isinstance(n.target, ast.Name):
+      assigned.add(n.target.id)
+  out = set()
+  for n in ast.walk(fn):
+    if isinstance(n, ast.expr) and hasattr(n, "lineno"):
+      names = {m.id for m in ast.walk(n) if isinstance(m, ast.Name)}
+      if "s" not in names and not (names & assigned):
+        out.add((n.lineno, n.col_offset, n.end_lineno, n.end_col_offset))
+  return out
+
+
 class Wrap(ast.NodeTransformer):
   def __init__(self, keys):
     self.keys = keys
@@ -150,6 +168,7 @@ def judge(case, stats=None):
       tree = ast.parse(src)
       fn = tree.body[0]
       fn.decorator_list = []
+      consts = const_only_keys(fn)
       fn.body = [Wrap(keys).visit(st_) for st_ in fn.body]
       ast.fix_missing_locations(tree)
       recs = []
@@ -180,7 +199,7 @@ def judge(case, stats=None):
           nprobed += 1
           if hasattr(v, "nbits"):
             if v.nbits != w:
-              if cval is not None and kind not in ("SizeCast", "Number", "FreeVar"):
+              if (cval is not None or key in consts) and kind not in ("SizeCast", "Number", "FreeVar"):
                 # a constant-only sub-expression: the checker folds it and sizes the folded value minimally,
                 # dropping explicit operand widths (known finding, own signature)
                 return ("folded_constant_expression_resized", f"{blk.__name__} line {key[0]} col {key[1]}: constant {kind} typed {w} bits, value {v!r} has {v.nbits}")
